@@ -14,7 +14,7 @@ def string_cases(ctx, binp, maxlen):
     if res["violated"]:
         raise vlib.ToolError("Gen_Parse: specification sanity invariant violated: " + res["violated"])
     ctx.add_tlc(res, f"Gen_Parse: all strings over {len(ALPHA)} symbols up to length {maxlen}, expected outcome sets")
-    cases = vlib.cases_from(res["out"])
+    cases = vlib.nonempty(vlib.cases_from(res["out"]), "Gen_Parse")
     hcases = []
     for i, c in enumerate(cases):
         s = c["s"]
